@@ -70,7 +70,7 @@ pub fn run(run: &Run) {
          fixed corner cases. Oracle: model round r = (non-empty; FreeformClass reference scan; Zs16->SPACE, trim, collapse; ICU4X NFKC; non-empty), \
          enforce = reference stabilize(r) (first application + 3 re-applications); prepare returns the input; every accepted result e satisfies r(e)=e \
          in the model and prepare/additional_mapping_rule/normalization_rule of the implementation leave e unchanged (case preserved by the model). \
-         Non-trivial: accepted and the result differs from the input (bucketed by number of applications needed); distinct = distinct input. Plus the deterministic long-input / call-order batteries of DESIGN.md 8.1 that apply to this property (alignment sweeps 0..72 and around 128..65536 bytes, runs and exact counts, sandwiches and multi-megabyte inputs, exhaustive pair sets, plane/byte aliases, hash-colliding pairs back to back, owned arguments with spare capacity); each battery is a finite list enumerated completely and appears as its own section in 'sections'.",
+         Non-trivial: accepted and the result differs from the input (bucketed by number of applications needed); distinct = distinct input. Plus the deterministic long-input / call-order batteries of DESIGN.md 8.1 and 8.2 that apply to this property (extreme scale, mark neighbours, distinct runs with repeats, environment children, thread lifetime, concurrent distinct inputs; alignment sweeps 0..72 and around 128..65536 bytes, runs and exact counts, sandwiches and multi-megabyte inputs, exhaustive pair sets, plane/byte aliases, hash-colliding pairs back to back, owned arguments with spare capacity); each battery is a finite list enumerated completely and appears as its own section in 'sections'.",
     );
     let ns = &crate::gens::pools().nfkc_space;
     run.extra("nfkc_space_pool_size", json!(ns.len()));
